@@ -45,6 +45,8 @@ func runFamily(fam string, w *bufio.Writer, r *rng, id, size int, opt string) bo
 			genCall(w, r, id, cfgAcyclic, 8, "call")
 		case "exact":
 			emitCall(w, genExact(r, cfgGeneral), id, 5, "call", "fam=exact")
+		case "malformed":
+			emitCall(w, genMalformed(r, cfgGeneral), id, 2, "call", "fam=malformed")
 		case "hopeless":
 			emitCall(w, genHopeless(r, cfgGeneral), id, 2, "call", "fam=hopeless")
 		case "affinity":
